@@ -134,21 +134,24 @@ impl BQ {
             self.buf(pos) = v;
             self.count = self.count + 1;
             if self.count > self.maxcount { self.maxcount = self.count; }
-            self.nonEmpty.@NOTIFY@();
+            @IN_OPEN@self.nonEmpty.@NOTIFY@();@IN_CLOSE@
         });
+        @OUT_OPEN@self.nonEmpty.@NOTIFY@();@OUT_CLOSE@
     }
 
     fn take(): Int64 {
-        self.mtx.lock[Int64](||: Int64 {
+        let v = self.mtx.lock[Int64](||: Int64 {
             while self.count == 0 {
                 self.nonEmpty.wait(self.mtx);
             }
             let v = self.buf(self.head);
             self.head = (self.head + 1) % self.buf.size();
             self.count = self.count - 1;
-            self.nonFull.@NOTIFY@();
+            @IN_OPEN@self.nonFull.@NOTIFY@();@IN_CLOSE@
             v
-        })
+        });
+        @OUT_OPEN@self.nonFull.@NOTIFY@();@OUT_CLOSE@
+        v
     }
 }
 
@@ -218,8 +221,9 @@ fn player(r: Ring, me: Int64, n: Int64, rounds: Int64) {
             r.steps = r.steps + 1;
             r.turn = (me + 1) % n;
             if k % @GCEVERY@ == me { @GC_IN@ }
-            r.conds(r.turn % r.conds.size()).@NOTIFY@();
+            @IN_OPEN@r.conds(r.turn % r.conds.size()).@NOTIFY@();@IN_CLOSE@
         });
+        @OUT_OPEN@r.conds(((me + 1) % n) % r.conds.size()).@NOTIFY@();@OUT_CLOSE@
         k = k + 1;
     }
 }
@@ -243,19 +247,22 @@ const W_BARRIER: &str = r#"class Barrier { mtx: Mutex, cond: Condition, n: Int64
 
 impl Barrier {
     fn arrive() {
-        self.mtx.lock[()](|| {
+        let last = self.mtx.lock[Bool](||: Bool {
             self.arrived = self.arrived + 1;
             if self.arrived == self.n {
                 self.arrived = 0;
                 self.generation = self.generation + 1;
-                self.cond.notify_all();
+                @IN_OPEN@self.cond.notify_all();@IN_CLOSE@
+                true
             } else {
                 let g = self.generation;
                 while self.generation == g {
                     self.cond.wait(self.mtx);
                 }
+                false
             }
         });
+        if last { @OUT_OPEN@self.cond.notify_all();@OUT_CLOSE@ }
     }
 }
 
@@ -415,13 +422,15 @@ fn main() {
     i = 0;
     while i < @SPIN@ { g.mtx.lock[()](|| { }); i = i + 1; }
     let before = g.mtx.lock[Int64](||: Int64 { g.woken });
-    g.mtx.lock[()](|| { g.flag = true; g.cond.notify_one(); });
+    g.mtx.lock[()](|| { g.flag = true; @IN_OPEN@g.cond.notify_one();@IN_CLOSE@ });
+    @OUT_OPEN@g.cond.notify_one();@OUT_CLOSE@
     let mut one = false;
     while !one { one = g.mtx.lock[Bool](||: Bool { g.woken >= 1 }); }
     i = 0;
     while i < @SPIN@ { g.mtx.lock[()](|| { }); i = i + 1; }
     let after_one = g.mtx.lock[Int64](||: Int64 { g.woken });
-    g.mtx.lock[()](|| { g.cond.notify_all(); });
+    g.mtx.lock[()](|| { @IN_OPEN@g.cond.notify_all();@IN_CLOSE@ });
+    @OUT_OPEN@g.cond.notify_all();@OUT_CLOSE@
     for th in threads { th.join(); }
     println("before=${before} after_one=${after_one} woken=${g.woken} early=${g.early}");
 }
@@ -440,7 +449,14 @@ pub fn gen_workload(c: &mut Choices, heavy_gc: bool) -> (String, String, String,
     let gce = *c.pick(&[50i64, 7, 200, 1000, 13]);
     let gce2 = *c.pick(&[300i64, 40, 900, 5]);
     let moves = gc_in != 0 || gc_out != 0;
+    // notifications are issued inside the critical section or right after it (both are legal uses of the API)
+    let notify_outside = c.chance(1, 2);
+    let (io, ic, oo, oc) = if notify_outside { ("/* ", " */", "", "") } else { ("", "", "/* ", " */") };
     let mut kv: Vec<(&str, String)> = vec![
+        ("IN_OPEN", io.to_string()),
+        ("IN_CLOSE", ic.to_string()),
+        ("OUT_OPEN", oo.to_string()),
+        ("OUT_CLOSE", oc.to_string()),
         ("N", n.to_string()),
         ("GC_IN", gc_stmt(gc_in).to_string()),
         ("GC_OUT", gc_stmt(gc_out).to_string()),
@@ -531,7 +547,7 @@ pub fn gen_workload(c: &mut Choices, heavy_gc: bool) -> (String, String, String,
         }
     };
     let source = format!("{PRELUDE}{CHURN}{}", subst(body, &kv));
-    let label = format!("{label}:gc{gc_in}{gc_out}");
+    let label = format!("{label}:gc{gc_in}{gc_out}:{}", if notify_outside { "notify-outside-lock" } else { "notify-inside-lock" });
     (kind.to_string(), label, source, expected, moves)
 }
 
@@ -565,7 +581,7 @@ impl Prop for MtWorkloads {
         }
         let heavy = stress != 0 && no_tlab;
         let (kind, label, source, expected, moves) = gen_workload(c, heavy || gc == "zero");
-        let reps = 4;
+        let reps = 3;
         let mut perturb = vec![None];
         for _ in 1..reps {
             perturb.push(Some(1 + (c.raw() as u64 % 1_000_000)));
@@ -642,6 +658,7 @@ impl Prop for MtWorkloads {
             .class_if(case.moves_objects && (case.gc == "swiper" || case.gc == "copy"), "collections-while-threads-queued(moving-collector)")
             .class_if(case.flags.contains("--gc-stress"), "gc-stress")
             .class_if(case.label.contains("notify_one"), "notify_one")
+            .class_if(case.label.contains("notify-outside-lock") && ["queue", "ring", "barrier", "gate"].contains(&case.kind.as_str()), "notification-outside-the-critical-section")
             .class_if(case.label.contains("notify_all"), "notify_all")
     }
     fn render(&self, case: &MtCase) -> Value {
@@ -681,19 +698,20 @@ pub fn main(mode: Mode) -> i32 {
                 println!("INCONCLUSIVE property=C09 the optimizing compiler could not be bootstrapped from this tree");
                 return 2;
             }
-            ctx.rule = "program level (sub-check `workloads`): a case is a generated multi-threaded Dora workload (2-8 threads) with a closed-form invariant — locked counter with an inside-flag (optionally under two nested mutexes), bounded queue with two conditions (1-4 producers/consumers, capacity 1-64, notify_one or notify_all, per-producer FIFO check), turn-taking ring over shared or per-player conditions, reusable barrier with notify_all, join chains with plain-field visibility and repeated joins, atomic fetch_add / compare_exchange loops / exchange spin lock / exchange token circulation on AtomicInt32/64, a gate that checks that notifications without waiter have no effect and that notify_one wakes exactly one waiter — with forced full/minor collections and allocation churn at generated points, x {baseline, optimizing} x {swiper, copy, sweep, zero} x {-, --gc-stress, --gc-stress-minor} x --disable-tlab x --gc-worker; each built once and run 4 times: unperturbed and under 3 generated seeds of the runtime's schedule perturbation hook (DORA_VERIF_PERTURB). oracle: exit 0 and exactly the invariant line; a run whose threads are all asleep and which consumed no CPU for 6 s is a deadlock / lost wake-up (violation); a run still consuming CPU at 180 s is inconclusive; non-trivial = case that completed at least one perturbed run. primitive level: part `waitlists` (deterministic scheduler over the real WaitLists / DoraThread code, binary vsched)".into();
+            ctx.rule = "program level (sub-check `workloads`): a case is a generated multi-threaded Dora workload (2-8 threads) with a closed-form invariant — locked counter with an inside-flag (optionally under two nested mutexes), bounded queue with two conditions (1-4 producers/consumers, capacity 1-64, notify_one or notify_all, per-producer FIFO check), turn-taking ring over shared or per-player conditions, reusable barrier with notify_all, join chains with plain-field visibility and repeated joins, atomic fetch_add / compare_exchange loops / exchange spin lock / exchange token circulation on AtomicInt32/64, a gate that checks that notifications without waiter have no effect and that notify_one wakes exactly one waiter — with forced full/minor collections and allocation churn at generated points, x {baseline, optimizing} x {swiper, copy, sweep, zero} x {-, --gc-stress, --gc-stress-minor} x --disable-tlab x --gc-worker; notifications issued inside the critical section or right after it; each built once and run 3 times: unperturbed and under 2 generated seeds of the runtime's schedule perturbation hook (DORA_VERIF_PERTURB). oracle: exit 0 and exactly the invariant line; a run whose threads are all asleep and which consumed no CPU for 6 s is a deadlock / lost wake-up (violation); a run still consuming CPU at 180 s is inconclusive; non-trivial = case that completed at least one perturbed run. primitive level: part `waitlists` (deterministic scheduler over the real WaitLists / DoraThread code, binary vsched)".into();
             ctx.assumptions = vec![
                 "program level explores only the schedules the OS produces under seeded perturbation; the deterministic-scheduler part explores sequentially consistent interleavings of the wait-queue primitives".into(),
                 "quiescence (all threads in interruptible sleep, zero CPU ticks for 6 s) is taken as proof that the workload cannot progress: the workloads neither read input nor sleep".into(),
             ];
             ctx.run_regressions(&p);
             ctx.run_known_reproducers(&p);
-            let n = ctx.n(160, 4000);
+            let n = ctx.n(112, 4000);
             ctx.run_search(&p, n, 40, 0);
             for k in KINDS {
                 ctx.require_class(&format!("workloads/kind:{k}"));
             }
             ctx.require_class("workloads/collections-while-threads-queued(moving-collector)");
+            ctx.require_class("workloads/notification-outside-the-critical-section");
             ctx.merge_part("waitlists");
             ctx.finish()
         }
